@@ -302,9 +302,16 @@ static void put_triplets(rng_t *r, cmat_t *M, sb_t *s, int lastnl) {
 }
 static void write_mm(rng_t *r, cmat_t *M, sb_t *s, int compat_hdr, int longtok) {
     static const char *ban[] = { "%%MatrixMarket", "%%matrixmarket", "%%MATRIXMARKET" };
-    int up = rng_chance(r, 0.1);
-    char h[128]; sprintf(h, "%s matrix coordinate %s %s", ban[rng_int(r, 0, 2)], (M->cplx && !compat_hdr) ? "complex" : "real", M->sym ? "symmetric" : "general");
-    if (up) for (char *p = h + 14; *p; p++) *p = (char)toupper((unsigned char)*p);
+    /* the keywords of the banner are case-insensitive: each is written lower-case, UPPER-CASE or Capitalised */
+    const char *kw[4] = { "matrix", "coordinate", (M->cplx && !compat_hdr) ? "complex" : "real", M->sym ? "symmetric" : "general" };
+    char h[128]; int hl = sprintf(h, "%s", ban[rng_int(r, 0, 2)]);
+    int allup = rng_chance(r, 0.08);
+    for (int t = 0; t < 4; t++) {
+        int style = allup ? 1 : (rng_chance(r, 0.7) ? 0 : rng_int(r, 1, 2));
+        h[hl++] = ' ';
+        for (const char *q = kw[t]; *q; q++) h[hl++] = (style == 1 || (style == 2 && q == kw[t])) ? (char)toupper((unsigned char)*q) : *q;
+    }
+    h[hl] = 0;
     sb_puts(s, h); if (rng_chance(r, 0.1)) sb_fill(s, ' ', rng_int(r, 1, 3)); sb_putc(s, '\n');
     int nc = rng_chance(r, 0.5) ? 0 : rng_int(r, 1, 4);
     for (int i = 0; i < nc; i++) {
